@@ -717,6 +717,13 @@ impl Property for C16 {
         }
         let mut args: Vec<String> = vec!["-q".into(), "main.asm".into(), "-f".into(), "binary".into(), "-o".into(), "out.bin".into()];
         args.extend(cli.iter().cloned());
+        // v2: further output groups behind the one that carries the defines (defines are global options)
+        if crate::engine::gen_version() >= 2 && t.chance(1, 3) {
+            ctx.label("defines-in-an-earlier-output-group");
+            for g in 0..t.urange(1, 2) {
+                args.extend(["--".to_string(), "-f".into(), (*t.pick(&["hexstr", "symbols", "annotated"])).into(), "-o".into(), format!("extra{}.txt", g)]);
+            }
+        }
         let r = sut::drive(&mut fs, &args);
         ctx.evals += 1;
         let cli_ok: Option<Vec<u8>> = match &r {
